@@ -13,6 +13,12 @@ package main
 //   C09.fail-leaves-no-trace              byte snapshot of all module stores before/after every failing call (dom_atomic.go)
 //   C09.values.late-checks-cannot-fail    no reported failure is refused by one of the late checks
 //   C09.values.premise                    P1..P4 on the real state / real codecs
+// delegation.undelegate is the fifth such entry point (Props/C09Undelegate.lean): RemoveShare writes four rows before
+// SetUndelegationRecords and the hold-count hook can refuse. Its premises — (P5) every delegation row with a non-zero share
+// has its staker on the operator's list, (P6) GetUnbondingExpirationBlockNumber(h) >= h, (P7) no hold count at MaxUint64 — are
+// evaluated after every delegation-precompile call (undelegatePremises); its late steps are driven by further messages of the
+// SAME Ethereum transaction with the SAME LayerZero nonce (undelegateAgain: the record key the previous message has just
+// written), and a `false` of undelegate must come from one of the fifteen identified guards (anything else is a violation).
 // History 0 is the directed scenario; the others are seeded streams over the same entry points with
 // boundary-biased amounts (1, the whole withdrawable balance, one more) and slash proportions (… 0.999999, 1).
 
@@ -65,6 +71,13 @@ func avLateStep(entry, errText string) string {
 	return ""
 }
 
+// avUndelegateLate: the seven checks of delegation.undelegate that stand after RemoveShare's first write
+// (Props/C09Undelegate.lean: undelegateAssumed), as dom_atomic.go's failStep names them.
+var avUndelegateLate = map[string]bool{
+	"UpdateAssetValue(TotalDepositAmount)": true, "UpdateAssetValue(WithdrawableAmount)": true, "UpdateAssetValue(PendingUndelegationAmount)": true,
+	"UpdateDelegationState": true, "DeleteStakerForOperator": true, "SetUndelegationRecords": true, "IncrementUndelegationHoldCount": true,
+}
+
 func (v *avH) violate(mon, sig, what string) {
 	if v.seen[sig] {
 		v.env.Note("repeat:" + sig)
@@ -101,6 +114,64 @@ func (v *avH) premises() {
 				v.env.DistinctKey("premise|empty-pool-no-shares")
 			case i.TotalAmount.LT(sdkmath.NewInt(1000)):
 				v.env.DistinctKey("premise|tiny-pool")
+			}
+		}
+	}
+}
+
+// undelegatePremises evaluates what Undelegate.Good (Proofs/AtomicUndelegate.lean) asks of the real state:
+//   (P5) every delegation row with a non-zero share has its staker on the operator's staker list (the key exists:
+//        DeleteStakerForOperator cannot miss), and (P6) the completion height x/operator gives a record started now is
+//        not below the current height (SetUndelegationRecords' only test), (P7) no hold count is at MaxUint64.
+func (v *avH) undelegatePremises() {
+	c := v.c
+	v.env.Eval("C09.values.premise")
+	rows, err := c.App.DelegationKeeper.AllDelegationStates(c.Ctx)
+	if err != nil {
+		v.env.Note("premise-read-error")
+		return
+	}
+	for _, row := range rows {
+		k, err := delegationtypes.ParseStakerAssetIDAndOperator([]byte(row.Key))
+		if err != nil {
+			v.env.Note("premise-key-parse-error")
+			continue
+		}
+		if row.States.UndelegatableShare.IsNegative() || row.States.WaitUndelegationAmount.IsNegative() {
+			v.violate("C09.values.premise", "premise:negative-delegation-figure", fmt.Sprintf("delegation row %s share=%s wait=%s", row.Key, row.States.UndelegatableShare, row.States.WaitUndelegationAmount))
+		}
+		if row.States.UndelegatableShare.IsZero() {
+			continue
+		}
+		if !c.App.DelegationKeeper.HasStakerList(c.Ctx, k.OperatorAddr, k.AssetID) {
+			v.violate("C09.values.premise", "premise:delegator-without-staker-list",
+				fmt.Sprintf("delegation row %s holds share %s but operator %s has no staker list for %s: the undelegation of the whole share fails at DeleteStakerForOperator after RemoveShare wrote three rows", row.Key, row.States.UndelegatableShare, k.OperatorAddr, k.AssetID))
+			continue
+		}
+		l, _ := c.App.DelegationKeeper.GetStakersByOperator(c.Ctx, k.OperatorAddr, k.AssetID)
+		found := false
+		for _, s := range l.Stakers {
+			found = found || s == k.StakerID
+		}
+		if !found {
+			v.violate("C09.values.premise", "premise:delegator-not-listed", fmt.Sprintf("delegation row %s holds share %s but the staker is not on the operator's list %v", row.Key, row.States.UndelegatableShare, l.Stakers))
+		}
+		v.env.DistinctKey("premise|listed-delegator")
+	}
+	hNow := uint64(c.Ctx.BlockHeight())
+	for _, op := range c.Operators {
+		if cb := c.App.OperatorKeeper.GetUnbondingExpirationBlockNumber(c.Ctx, op.Acc, hNow); cb < hNow {
+			v.violate("C09.values.premise", "premise:completion-height-in-the-past", fmt.Sprintf("GetUnbondingExpirationBlockNumber(%s, %d) = %d", op.Acc, hNow, cb))
+		}
+	}
+	recs, err := c.App.DelegationKeeper.AllUndelegations(c.Ctx)
+	if err == nil {
+		for _, r := range recs {
+			key := delegationtypes.GetUndelegationRecordKey(r.BlockNumber, r.LzTxNonce, r.TxHash, r.OperatorAddr)
+			if n := c.App.DelegationKeeper.GetUndelegationHoldCount(c.Ctx, key); n == ^uint64(0) {
+				v.violate("C09.values.premise", "premise:hold-count-at-maximum", fmt.Sprintf("record %s", key))
+			} else if n > 1 {
+				v.env.DistinctKey("premise|hold-count>1")
 			}
 		}
 	}
@@ -153,12 +224,24 @@ func (v *avH) call(entry string, from, to common.Address, a abi.ABI, method stri
 	if cls != "ok" {
 		v.env.Eval("C09.values.late-checks-cannot-fail")
 		et := v.lastErr
-		if st := avLateStep(entry, et); st != "" {
+		st := avLateStep(entry, et)
+		if entry == "delegation.undelegate" && cls == "false" {
+			// positively identified steps only: the guards are known by text (atomClass), the rest by the refusing callee
+			if s2 := v.failStep(entry, cls, et); avUndelegateLate[s2] {
+				st = s2
+			} else if s2 == "" {
+				st = "unidentified-refusal" // not one of the known guards: fail closed
+			}
+		}
+		if st != "" {
 			v.violate("C09.values.late-checks-cannot-fail", "late-check-failed:"+entry+":"+st,
 				fmt.Sprintf("%s was refused (%s) by %s, a check that stands after the entry point's first write: %s", entry, cls, st, et))
 		}
 	}
 	v.premises()
+	if strings.HasPrefix(entry, "delegation.") {
+		v.undelegatePremises()
+	}
 	return cls
 }
 
@@ -176,6 +259,25 @@ func (v *avH) delegate(s Actor, op sdk.AccAddress, amt *big.Int) string {
 func (v *avH) undelegate(s Actor, op sdk.AccAddress, amt *big.Int) string {
 	v.lzNonce++
 	return v.call("delegation.undelegate", v.gw(), xbDelegAddr, v.abis.deleg, "undelegate", uint32(v.c.LzID), v.lzNonce, v.assetBytes(0), pad32(s.Eth.Bytes()), []byte(op.String()), amt)
+}
+
+// undelegateAgain: a further message of the Ethereum transaction of the previous call, with the SAME LayerZero nonce
+// (same or another staker): the record key (block, nonce, tx hash, operator) is the previous message's when op is.
+func (v *avH) undelegateAgain(s Actor, op sdk.AccAddress, amt *big.Int) string {
+	v.sameTx = true
+	return v.call("delegation.undelegate", v.gw(), xbDelegAddr, v.abis.deleg, "undelegate", uint32(v.c.LzID), v.lzNonce, v.assetBytes(0), pad32(s.Eth.Bytes()), []byte(op.String()), amt)
+}
+
+func (v *avH) delegated(s Actor, op sdk.AccAddress) *big.Int {
+	stakerID, assetID := assetstypes.GetStakerIDAndAssetID(v.c.LzID, s.Eth.Bytes(), hexToBytes(v.c.Cfg.Assets[0].Addr))
+	m, err := v.c.App.DelegationKeeper.AllDelegatedInfoForStakerAsset(v.c.Ctx, stakerID, assetID)
+	if err != nil {
+		return big.NewInt(0)
+	}
+	if a, ok := m[op.String()]; ok {
+		return a.BigInt()
+	}
+	return big.NewInt(0)
 }
 
 func (v *avH) optIn(avs, op common.Address) string {
@@ -262,6 +364,14 @@ func (v *avH) directed() {
 	v.expect("delegate-1-into-tiny-pool", v.delegate(s1, op1, big.NewInt(1)), "ok")
 	v.expect("delegate-into-tiny-pool", v.delegate(s1, op1, big.NewInt(3_000_000)), "ok")
 	v.undelegate(s1, op1, big.NewInt(1))
+	// D2b: undelegations whose late steps are closest to failing: the same message again in the same Ethereum
+	// transaction (SetUndelegationRecords meets the key it has just written; the hold count of the key goes to 2 for a
+	// validator), the same key from another staker, the whole remaining delegation (shareIsZero: DeleteStakerForOperator),
+	// then once more (nothing left: refused by ValidateUndelegationAmount before any write)
+	v.expect("undelegate-same-message-again", v.undelegateAgain(s1, op1, big.NewInt(1)), "ok")
+	v.expect("undelegate-same-key-other-staker", v.undelegateAgain(s0, op1, big.NewInt(1)), "false")
+	v.expect("undelegate-whole-rest-same-key", v.undelegateAgain(s1, op1, v.delegated(s1, op1)), "ok")
+	v.expect("undelegate-nothing-left", v.undelegateAgain(s1, op1, big.NewInt(1)), "false")
 	v.expect("slash-rest-to-zero", v.slash(op1, 1_000_000, one), "ok")
 	v.expect("delegate-after-second-wipe", v.delegate(s1, op1, big.NewInt(2)), "ok")
 	// D3: opt-in / opt-out through the AVS precompile (no cache context there)
@@ -321,6 +431,27 @@ func (v *avH) step() {
 		v.delegate(s, op, v.amountFor(s))
 	case 2:
 		v.undelegate(s, op, big.NewInt(int64(1+r.Intn(3_000_000))))
+		// further messages of the same Ethereum transaction with the same nonce: same message again / another staker /
+		// the whole remaining delegation / one base unit
+		for r.Chance(2, 5) {
+			s2 := s
+			if r.Chance(1, 3) {
+				s2 = v.stakers[r.Intn(len(v.stakers))]
+			}
+			var amt *big.Int
+			switch r.Pick(3, 2, 2) {
+			case 0:
+				amt = big.NewInt(int64(1 + r.Intn(3_000_000)))
+			case 1:
+				amt = v.delegated(s2, op)
+				if amt.Sign() == 0 {
+					amt = big.NewInt(1)
+				}
+			default:
+				amt = big.NewInt(1)
+			}
+			v.undelegateAgain(s2, op, amt)
+		}
 	case 3:
 		props := []sdkmath.LegacyDec{sdkmath.LegacyNewDecWithPrec(1, 1), sdkmath.LegacyNewDecWithPrec(5, 1), sdkmath.LegacyNewDecWithPrec(999999, 6),
 			sdkmath.LegacyNewDecWithPrec(999999999999999999, 18), sdkmath.LegacyOneDec()}
